@@ -635,3 +635,190 @@ def install_bci(sess):
     # names bound at import time
     sess.wrap(showbias_mod, "get_bootstrap_ci", "M-bci", post, on_exc=on_exc)
     sess.wrap(roc_ci_mod, "bootstrap_ci", "M-bci", post, on_exc=on_exc)
+
+
+# --------------------------------------------------------------------------------------
+# M-bs: bootstrap samples (C11 well-formedness, C12 group labels) + recording for C14/C16/C18
+
+
+def resolved_method(s, config):
+    """The sampling method the documentation prescribes; None where doc and code may
+    legitimately differ (dynamic with a class of exactly 100 scores)."""
+    m = config.sampling_method
+    if m != "dynamic":
+        return m
+    is_group = hasattr(s, "pos_groups")
+    if is_group and config.stratified_sampling == "by_group":
+        return "replacement"
+    if config.smoothing and not is_group:
+        return "replacement"
+    lo = min(len(s.pos), len(s.neg))
+    if lo < 100:
+        return "replacement"
+    if lo == 100:
+        return None
+    return "single_pass"
+
+
+def _multiset_included(sample, source):
+    import collections
+
+    c = collections.Counter(source)
+    for v in sample:
+        c[v] -= 1
+        if c[v] < 0:
+            return False
+    return True
+
+
+def judge_sample(sess, s, config, b, facets, monitor="M-bs"):
+    method = resolved_method(s, config)
+    if callable(config.sampling_method):
+        sess.skip(monitor, "custom sampler")
+        return
+    if not finite_arr(s.pos) or not finite_arr(s.neg):
+        sess.skip(monitor, "non-finite source")
+        return
+    strat = config.stratified_sampling
+    is_group = hasattr(s, "pos_groups")
+    sc, ec = cfg_of(s)
+    sig = (type(s).__name__, config.sampling_method, method, strat, bool(config.smoothing), sc, ec,
+           "big" if min(len(s.pos), len(s.neg)) >= 100 else "small", s.nb_easy_pos > 0, s.nb_easy_neg > 0)
+
+    def w(**kw):
+        d = {"source_pos": np.asarray(s.pos), "source_neg": np.asarray(s.neg), "source_easy": [int(s.nb_easy_pos), int(s.nb_easy_neg)],
+             "cfg": [sc, ec], "sampling_method": str(config.sampling_method), "stratified": strat, "smoothing": bool(config.smoothing), "ratio": config.ratio,
+             "sample_pos": np.asarray(b.pos), "sample_neg": np.asarray(b.neg), "sample_easy": [int(b.nb_easy_pos), int(b.nb_easy_neg)]}
+        if is_group:
+            d.update(source_pos_groups=[str(x) for x in s.pos_groups], source_neg_groups=[str(x) for x in s.neg_groups],
+                     sample_pos_groups=[str(x) for x in b.pos_groups], sample_neg_groups=[str(x) for x in b.neg_groups])
+        d.update(kw)
+        return lambda: d
+
+    C = lambda ok, what, key: sess.check(monitor, ok, what, w(), sig=sig, key=key)  # noqa: E731
+    if "c11" in facets:
+        C(cfg_of(b) == (sc, ec), "sample does not keep score_class/equal_class", "bs-cfg")
+        C(b.nb_easy_pos >= 0 and b.nb_easy_neg >= 0 and int(b.nb_easy_pos) == b.nb_easy_pos and int(b.nb_easy_neg) == b.nb_easy_neg,
+          "sample has a negative or non-integer easy-sample count", "bs-easy-count")
+        bp, bn = np.asarray(b.pos), np.asarray(b.neg)
+        C(bool(np.all(bp[1:] >= bp[:-1])) and bool(np.all(bn[1:] >= bn[:-1])), "sample arrays not ascending", "bs-sorted")
+        # metrics of the sample equal direct counting over what the sample was built from
+        allv = np.concatenate([bp.astype(float), bn.astype(float)])
+        if allv.size:
+            q = np.quantile(allv, [0.25, 0.5, 0.8])
+            judge_cm(sess, b, q, b.cm(q).matrix, monitor=monitor, sig_extra=("sample-cm",))
+        if not config.smoothing:
+            sp, sn = np.asarray(s.pos).tolist(), np.asarray(s.neg).tolist()
+            if method == "proportion":
+                C(_multiset_included(bp.tolist(), sp) and _multiset_included(bn.tolist(), sn),
+                  "proportion sample is not drawn without replacement from the same class", "bs-proportion-inclusion")
+            else:
+                C(set(bp.tolist()) <= set(sp) and set(bn.tolist()) <= set(sn), "sample contains a score that is not in the source's same class", "bs-inclusion")
+        if len(s.pos) > 0:
+            C(len(bp) >= 1, "sample lost all scored positives", "bs-at-least-one")
+        if len(s.neg) > 0:
+            C(len(bn) >= 1, "sample lost all scored negatives", "bs-at-least-one")
+        if method == "replacement":
+            C(b.nb_all_samples == s.nb_all_samples, "replacement sample does not preserve the total sample count", "bs-total")
+            if strat == "by_label":
+                C((len(bp), len(bn), b.nb_easy_pos, b.nb_easy_neg) == (len(s.pos), len(s.neg), s.nb_easy_pos, s.nb_easy_neg),
+                  "by_label: the four strata are not preserved exactly", "bs-strata")
+        if method == "single_pass" and strat == "by_label":
+            C((b.nb_easy_pos, b.nb_easy_neg) == (s.nb_easy_pos, s.nb_easy_neg), "single_pass by_label: easy strata not preserved", "bs-strata-easy")
+        if method == "proportion" and config.ratio is not None:
+            r = config.ratio
+            want = (max(int(r * len(s.pos)), 1), max(int(r * len(s.neg)), 1), int(r * s.nb_easy_pos), int(r * s.nb_easy_neg))
+            C((len(bp), len(bn), b.nb_easy_pos, b.nb_easy_neg) == want, "proportion sample has the wrong sizes", "bs-proportion-size")
+    if "c12" in facets and is_group:
+        owner = getattr(s, "_vmon_owner", None)
+        if owner is None:
+            allv = np.concatenate([np.asarray(s.pos, dtype=float), np.asarray(s.neg, dtype=float)])
+            if len(np.unique(allv)) == len(allv):
+                owner = {float(v): ("p", str(g)) for v, g in zip(s.pos, s.pos_groups)}
+                owner.update({float(v): ("n", str(g)) for v, g in zip(s.neg, s.neg_groups)})
+                s._vmon_owner = owner
+            else:
+                s._vmon_owner = owner = False
+        if owner is False:
+            sess.skip(monitor, "group source without unique scores: labels not identifiable")
+        else:
+            ok_p = all(owner.get(float(v)) == ("p", str(g)) for v, g in zip(b.pos, b.pos_groups))
+            ok_n = all(owner.get(float(v)) == ("n", str(g)) for v, g in zip(b.neg, b.neg_groups))
+            C(ok_p and ok_n and len(b.pos) == len(b.pos_groups) and len(b.neg) == len(b.neg_groups), "a sampled score carries a different group label than in the source", "gs-attached")
+            C([str(g) for g in b.groups] == [str(g) for g in s.groups], "list/order of group names not preserved in the sample", "gs-groups")
+            bp, bn = np.asarray(b.pos), np.asarray(b.neg)
+            C(bool(np.all(bp[1:] >= bp[:-1])) and bool(np.all(bn[1:] >= bn[:-1])), "group sample arrays not ascending", "gs-sorted")
+            if strat == "by_group" and method == "replacement":
+                same = all((np.sum(b.pos_groups == g) + np.sum(b.neg_groups == g)) == (np.sum(s.pos_groups == g) + np.sum(s.neg_groups == g)) for g in s.groups)
+                C(bool(same), "by_group: a group's sample count is not preserved", "gs-group-count")
+
+
+def install_bs(sess, facets=("c11",), keep=False):
+    S = lib()
+    from score_analysis import group_scores as G
+
+    install_ctor_snapshot(sess)
+    sess.bs_log = []
+    sess.bs_keep = keep
+
+    def post(snap, args, kwargs, res):
+        s = args[0]
+        config = kwargs.get("config", args[1] if len(args) > 1 else S.DEFAULT_BOOTSTRAP_CONFIG)
+        if sess.bs_keep and len(sess.bs_log) < 200_000:
+            sess.bs_log.append((s, config, res))
+        if facets:
+            judge_sample(sess, s, config, res, facets)
+
+    sess.wrap(S.Scores, "bootstrap_sample", "M-bs", post)
+    sess.wrap(G.GroupScores, "bootstrap_sample", "M-bs", post)
+
+
+# --------------------------------------------------------------------------------------
+# M-gs: GroupScores construction, indexing and per-group matrices (C12)
+
+
+def _pairs(values, groups):
+    import collections
+
+    return collections.Counter(zip(np.asarray(values, dtype=float).tolist(), [str(g) for g in np.asarray(groups).tolist()]))
+
+
+def install_gs(sess):
+    from score_analysis import group_scores as G
+
+    def ctor_post(snap, args, kwargs, res):
+        self = args[0]
+        try:
+            pos_in = kwargs["pos"] if "pos" in kwargs else args[1]
+            neg_in = kwargs["neg"] if "neg" in kwargs else args[2]
+            pg_in, ng_in = kwargs["pos_groups"], kwargs["neg_groups"]
+        except (KeyError, IndexError):
+            sess.skip("M-gs", "positional group arguments")
+            return
+        if not finite_arr(np.asarray(pos_in)) or not finite_arr(np.asarray(neg_in)):
+            sess.skip("M-gs", "non-finite scores")
+            return
+        sig = (cfg_of(self), bool(kwargs.get("is_sorted", False)), "names" if kwargs.get("group_names") is not None else "-")
+        w = lambda: {"pos_in": np.asarray(pos_in), "pos_groups_in": [str(g) for g in pg_in], "neg_in": np.asarray(neg_in), "neg_groups_in": [str(g) for g in ng_in],  # noqa: E731
+                     "pos": self.pos, "pos_groups": [str(g) for g in self.pos_groups], "neg": self.neg, "neg_groups": [str(g) for g in self.neg_groups]}
+        ok = _pairs(self.pos, self.pos_groups) == _pairs(pos_in, pg_in) and _pairs(self.neg, self.neg_groups) == _pairs(neg_in, ng_in)
+        sess.check("M-gs", ok, "group labels are not attached to the scores they were given with", w, sig=sig, key="gs-ctor-attached")
+        asc = bool(np.all(self.pos[1:] >= self.pos[:-1])) and bool(np.all(self.neg[1:] >= self.neg[:-1]))
+        if kwargs.get("is_sorted", False) and not asc:
+            sess.skip("M-gs", "is_sorted=True with unsorted input")
+        else:
+            sess.check("M-gs", asc, "GroupScores arrays not ascending after construction", w, sig=sig, key="gs-ctor-sorted")
+        if kwargs.get("group_names") is None:
+            want = sorted(set(str(g) for g in pg_in) | set(str(g) for g in ng_in))
+            sess.check("M-gs", [str(g) for g in self.groups] == want, "groups is not the sorted list of distinct labels", w, sig=sig, key="gs-ctor-groups")
+
+    def getitem_post(snap, args, kwargs, res):
+        self, group = args[0], args[1]
+        fp = np.asarray(self.pos)[np.asarray([str(g) == str(group) for g in self.pos_groups], dtype=bool)] if len(self.pos) else np.asarray(self.pos)
+        fn = np.asarray(self.neg)[np.asarray([str(g) == str(group) for g in self.neg_groups], dtype=bool)] if len(self.neg) else np.asarray(self.neg)
+        ok = np.array_equal(res.pos, fp) and np.array_equal(res.neg, fn) and cfg_of(res) == cfg_of(self) and res.nb_easy_pos == 0 and res.nb_easy_neg == 0
+        sess.check("M-gs", ok, "indexing by a group does not yield exactly the scores carrying that label",
+                   lambda: {"group": str(group), "got_pos": res.pos, "want_pos": fp, "got_neg": res.neg, "want_neg": fn}, sig=("getitem",), key="gs-getitem")
+
+    sess.wrap(G.GroupScores, "__init__", "M-gs", ctor_post)
+    sess.wrap(G.GroupScores, "__getitem__", "M-gs", getitem_post)
